@@ -147,6 +147,14 @@ func rangeOmap(c *Ctx, m *omap, site string) iter {
 	}
 	keys := append([]value{}, m.keys...)
 	vals := append([]value{}, m.vals...)
+	if c != nil && len(keys) > 1 {
+		if c.MapSitesSeen == nil {
+			c.MapSitesSeen = map[string]int{}
+		}
+		if len(keys) > c.MapSitesSeen[site] {
+			c.MapSitesSeen[site] = len(keys)
+		}
+	}
 	if c != nil && (c.PermuteMaps || c.MapSitePermute[site]) && len(keys) > 1 {
 		n := len(keys)
 		pk := make([]value, 0, n)
